@@ -1,6 +1,6 @@
 (* Conc/CacheLts.v — the interleaved view of the cache model: a labelled transition system whose
    atomic actions are the critical sections / atomic instructions of cache.go and lru.go.
-   Model file: definitions only; proofs in Conc/CacheLtsProofs.v.
+   Model file: definitions only; proofs in Conc/CacheLtsProofs.v, CacheLtsInv.v, CacheLtsClose.v.
 
    Shared memory is the [state] of Conc/Cache.v.  Every goroutine carries the list of atomic
    instructions it still has to execute for the operation it is in (empty = idle) and whether it holds
